@@ -29,6 +29,8 @@ struct Cfg {
     /// every n-th write call reports would-block before accepting anything (0 = never)
     #[serde(default)] block_every: usize,
     #[serde(default = "d_true")] auto_broker: bool,
+    /// ws: after the CONNACK the broker stops reading for this long (the client's writes fill the socket buffers and block)
+    #[serde(default)] ws_stall_ms: u64,
 }
 
 #[derive(Clone, Debug, Serialize, Deserialize)]
@@ -127,12 +129,12 @@ impl Write for Scripted {
 
 struct WsBroker { port: u16, state: Arc<Mutex<WsState>> }
 #[derive(Default)]
-struct WsState { received: Vec<u8>, parsed: usize, to_send: VecDeque<Vec<u8>>, connacked: bool, close: bool, stop: bool, frames_in: usize }
+struct WsState { received: Vec<u8>, parsed: usize, to_send: VecDeque<Vec<u8>>, connacked: bool, close: bool, stop: bool, frames_in: usize, stall_ms: u64, stalled: bool }
 
-fn start_ws_broker() -> Option<WsBroker> {
+fn start_ws_broker(stall_ms: u64) -> Option<WsBroker> {
     let listener = std::net::TcpListener::bind("127.0.0.1:0").ok()?;
     let port = listener.local_addr().ok()?.port();
-    let state = Arc::new(Mutex::new(WsState::default()));
+    let state = Arc::new(Mutex::new(WsState { stall_ms, ..Default::default() }));
     let st = state.clone();
     std::thread::spawn(move || {
         listener.set_nonblocking(true).ok();
@@ -146,6 +148,8 @@ fn start_ws_broker() -> Option<WsBroker> {
                     ws.get_mut().set_nonblocking(true).ok();
                     loop {
                         { let s = st.lock().unwrap(); if s.stop { let _ = ws.close(None); return; } if s.close { let _ = ws.close(None); let _ = ws.flush(); break; } }
+                        let stall = { let mut s = st.lock().unwrap(); if s.connacked && s.to_send.is_empty() && !s.stalled && s.stall_ms > 0 { s.stalled = true; s.stall_ms } else { 0 } };
+                        if stall > 0 { std::thread::sleep(Duration::from_millis(stall)); }
                         match ws.read() {
                             Ok(tungstenite::Message::Binary(b)) => {
                                 let mut s = st.lock().unwrap();
@@ -203,7 +207,7 @@ fn run_script(script: &Script, run_no: u64, tr: &mut Trace) {
     let mut seq_fields = |tr: &mut Trace, ev: &str, mut f: Vec<(&str, Value)>| { f.insert(0, ("t", json!(t0.elapsed().as_millis() as u64))); tr.emit(ev, f); };
 
     let conns: Arc<Mutex<Vec<Arc<Mutex<Shared>>>>> = Arc::new(Mutex::new(Vec::new()));
-    let broker = if ws { start_ws_broker() } else { None };
+    let broker = if ws { start_ws_broker(cfg.ws_stall_ms) } else { None };
     if ws && broker.is_none() { seq_fields(tr, "Skipped", vec![("why", json!("no loopback socket"))]); return; }
 
     let mut cb = MqttClientOptions::builder();
@@ -246,7 +250,9 @@ fn run_script(script: &Script, run_no: u64, tr: &mut Trace) {
     let mut sent_total = 0usize;
 
     // decode and log what the transport has received so far
+    let mut ws_bad_flag = false;
     let mut log_wire = |tr: &mut Trace, conns: &Arc<Mutex<Vec<Arc<Mutex<Shared>>>>>, broker: &Option<WsBroker>, logged_wire: &mut usize, wire_conn: &mut usize, ws_logged: &mut usize| {
+        let ws_bad = &mut ws_bad_flag;
         let mut out: Vec<(usize, String, u16, u64, u8)> = Vec::new();
         if let Some(b) = broker {
             let s = b.state.lock().unwrap();
@@ -254,9 +260,10 @@ fn run_script(script: &Script, run_no: u64, tr: &mut Trace) {
             let base = *ws_logged;
             for (first, body, _a, end) in framed.frames {
                 *ws_logged = base + end;
-                match rc::decode(first, &body, true) { Ok(p) => { let (tag, intact) = if p.ptype == rc::PUBLISH { let pl = p.bytes("payload").map(|x| x.to_vec()).unwrap_or_default(); let t = tag_of(&pl).unwrap_or(0); (t, (pl == payload_for(t, pl.len())) as u8) } else { (0, 1) }; out.push((1, rc::type_name(p.ptype).to_string(), p.pid(), tag, intact)); } Err(_) => out.push((1, "UNDECODABLE".into(), 0, 0, 0)) }
+                if *ws_bad { break; }
+                match rc::decode(first, &body, true) { Ok(p) => { let (tag, intact) = if p.ptype == rc::PUBLISH { let pl = p.bytes("payload").map(|x| x.to_vec()).unwrap_or_default(); let t = tag_of(&pl).unwrap_or(0); (t, (pl == payload_for(t, pl.len())) as u8) } else { (0, 1) }; out.push((1, rc::type_name(p.ptype).to_string(), p.pid(), tag, intact)); } Err(_) => { *ws_bad = true; out.push((1, "UNDECODABLE".into(), 0, 0, 0)); } }
             }
-            if framed.error_at.is_some() { out.push((1, "UNDECODABLE".into(), 0, 0, 0)); }
+            if framed.error_at.is_some() && !*ws_bad { *ws_bad = true; out.push((1, "UNDECODABLE".into(), 0, 0, 0)); }
         } else {
             let list = conns.lock().unwrap().clone();
             for (ci, c) in list.iter().enumerate() {
@@ -353,6 +360,15 @@ fn run_script(script: &Script, run_no: u64, tr: &mut Trace) {
     // end: the loop is known to have exited once a request is refused
     let alive = client.start(None).is_ok();
     std::thread::sleep(Duration::from_millis(20));
+    // the WebSocket broker reads on its own thread: wait until it has been quiet for a while before the final log
+    if let Some(b) = &broker {
+        let t = Instant::now(); let mut last = b.state.lock().unwrap().received.len(); let mut quiet = Instant::now();
+        while t.elapsed() < Duration::from_secs(20) && quiet.elapsed() < Duration::from_millis(400) {
+            std::thread::sleep(Duration::from_millis(10));
+            let n = b.state.lock().unwrap().received.len();
+            if n != last { last = n; quiet = Instant::now(); }
+        }
+    }
     log_wire(tr, &conns, &broker, &mut logged_wire, &mut wire_conn, &mut ws_logged);
     poll(tr, &mut pending, &mut logged_recv);
     for (id, _) in &pending { tr.emit("OpUnresolved", vec![("op", json!(id))]); }
